@@ -57,7 +57,8 @@ def showErr : Err → String
 def views (c : Circ) : String :=
   let n := c.numQudits
   let it := c.iterCyc
-  let gids := dedupNat (c.ops.map (·.gid)) |> sortNat
+  let gids := (dedupNat (c.ops.map (·.gid)) |> sortNat).filter (· < 1000)
+  let nblocks := (c.ops.filter (fun o => o.gid ≥ 1000)).length
   " ".intercalate [
     "iter=" ++ "+".intercalate (it.map (fun (k, o) => s!"{k}:{showOp o}")),
     "kahn=" ++ (if c.iterKahn == it then "same" else
@@ -74,7 +75,9 @@ def views (c : Circ) : String :=
     "coupling=" ++ showPts c.coupling,
     s!"depth={c.depth}",
     "counts=" ++ ",".intercalate (gids.map (fun g => s!"{g}:{c.gateCount g}")),
-    s!"inv={c.invB}"]
+    s!"blocks={nblocks}",
+    "inv=" ++ (if c.invB then "true" else if c.cycles.any (·.isEmpty) then "false:idle-cycle"
+      else "false:cells")]
 
 structure St where
   blocks : Blocks := []
@@ -117,7 +120,7 @@ def step (st : St) (line : String) : St × String :=
   match groups line with
   | [["new", r]] =>
     (match splitNats r with
-     | some r => reply { st with c := Circ.empty r } "ok"
+     | some r => reply { st with c := Circ.empty r, saved := Circ.empty r } "ok"
      | none => bad)
   | [["defblock", g, ct]] =>
     (match g.toNat?, parseCirc ct with
@@ -192,7 +195,9 @@ def step (st : St) (line : String) : St × String :=
        if g == 0 then
          let (c, r) := st.c.replaceWithCircuit p sub
          reply { st with c := c } (retU r)
+       else if !(st.c.cycleInRange p.1 && st.c.qubitInRange p.2) then reply st "err index"
        else
+         let p : Int × Int := ((normIdx st.c.numCycles p.1 : Nat), (normIdx st.c.numQudits p.2 : Nat))
          let (c1, r) := st.c.pop (some p)
          (match r with
           | .error e => reply { st with c := c1 } (showErr e)
@@ -220,6 +225,7 @@ def step (st : St) (line : String) : St × String :=
     (match splitNats perm with
      | some perm => let (c, x) := st.c.renumber perm; reply { st with c := c } (retU x)
      | none => bad)
+  | [["renumber"]] => let (c, x) := st.c.renumber []; reply { st with c := c } (retU x)
   | [["compress"]] => reply { st with c := st.c.compress } "ok"
   | [["clear"]] => reply { st with c := ⟨st.c.radixes, []⟩ } "ok"
   | [["save"]] => reply { st with saved := st.c } "ok"          -- x = circuit.copy()
